@@ -32,6 +32,12 @@ import os
 from harness import common
 
 
+# calls compiled to `deepCopy`: the library routine, and the module-level walker `_deepcopy_array` of state_manager.py (a deep copy that
+# also descends into sub-array fields of record dtypes; its TEXT is pinned by C17_deepcopy_array_def via G5-smsites and its depth is
+# checked dynamically on every blob kind, every run)
+DEEP_COPY_FUNCS = ("copy.deepcopy", "_deepcopy_array")
+
+
 class Unavailable(Exception):
     pass
 
@@ -288,7 +294,7 @@ class Comp:
                     raise Unavailable(f"{fs} of a {v.kind}")
                 return k(V("stack", None, fn="npArray" if fs == "np.array" else "npConcat", lst=v.term, deep=False), s1)
             return self.expr(node.args[0], env, s, fin)
-        if fs == "copy.deepcopy" and len(node.args) == 1:
+        if fs in DEEP_COPY_FUNCS and len(node.args) == 1:
             return self.expr(node.args[0], env, s, lambda v, s1: k(V("deepcopy", None, of=v), s1))
         if isinstance(f, ast.Attribute) and f.attr == "copy" and not node.args:
             return self.expr(f.value, env, s, lambda v, s1: k(V("bufcopy", None, of=v), s1))
@@ -560,7 +566,7 @@ class Comp:
                 alt = list(st.orelse) + rest
                 if (len(st.body) == 1 and isinstance(st.body[0], ast.Return) and alt and isinstance(alt[0], ast.Return)
                         and isinstance(alt[0].value, ast.Name) and env.get(alt[0].value.id) is c.of
-                        and isinstance(st.body[0].value, ast.Call) and _u(st.body[0].value.func) == "copy.deepcopy"
+                        and isinstance(st.body[0].value, ast.Call) and _u(st.body[0].value.func) in DEEP_COPY_FUNCS
                         and len(st.body[0].value.args) == 1 and isinstance(st.body[0].value.args[0], ast.Name)
                         and env.get(st.body[0].value.args[0].id) is c.of):
                     return retk(self.deepen(c.of), s1)
